@@ -214,7 +214,15 @@ def validate_traces(pairs, invariants, wd, module="TraceContract", batch_events=
                 with open(keep, "w") as f:
                     f.write(out)
                 shutil.copy(path, keep.replace(".log", ".ndjson"))
-                raise ToolError("TLC could not validate batch %d (rc=%d); log %s\n%s" % (i, rc, keep, out[-1500:]))
+                early = [l for l in out.splitlines() if VIOL_RE.match(l.strip()) and l.strip().startswith('"VIOL|')]
+                if not early:
+                    raise ToolError("TLC could not validate batch %d (rc=%d); log %s\n%s" % (i, rc, keep, out[-1500:]))
+                # TLC gave up on this batch AFTER predicates had already failed on earlier events (typically the
+                # execution went haywire after the violation): the violations found are reported, the rest of
+                # the batch is not validated
+                print("NOTE: TLC stopped in batch %d after %d violation line(s); rest of the batch not validated (log %s)"
+                      % (i, len(early), keep))
+                res["incomplete_batches"] = res.get("incomplete_batches", 0) + 1
             gen, dist = tlc_stats(out)
             res["states"] += dist
             res["transitions"] += gen
